@@ -34,6 +34,16 @@ func main() {
 		os.Exit(cmdDump(os.Args[2:]))
 	case "explain":
 		os.Exit(cmdExplain(os.Args[2:]))
+	case "warm":
+		// compiles the export data of /repo's dependencies into the Go build
+		// cache (what go/packages needs), so that the first check is fast
+		o := parse(os.Args[2:])
+		w, err := an.Load(o.repo, "")
+		if err != nil {
+			fmt.Printf("warm: %v\n", err)
+			return
+		}
+		fmt.Printf("warm: %d packages, %d functions, %.1fs\n", len(w.Pkgs), w.CountFuncs(), w.LoadSeconds)
 	case "list":
 		if len(os.Args) > 2 && os.Args[2] == "--json" {
 			var out []map[string]string
